@@ -36,9 +36,9 @@ for pid, text, tech in [
      "property-based testing: metamorphic relation over the formatter option product (Hypothesis + enumeration)"),
     ("C10", "Exhaustive enumeration of all well-typed expression trees up to 3/4 operators plus Hypothesis-drawn larger trees with every operator spelling, operand kind and redundant parenthesisation; oracle: an independent precedence-climbing reference parser re-reads the normalised string and must obtain the same tree, independent reader checks the printed form, fixed point on re-parse.",
      "property-based testing: reference parser oracle; exhaustive small trees + Hypothesis random trees"),
-    ("C11", "Generated-input search: Hypothesis-drawn token-level mutations of corpus files and generated documents, token soups over the whole vocabulary, a fixed family of unterminated constructs / every block type at the root / malformed INCLUDE lines / nesting at the stated bounds, and a CPU-time growth-exponent measurement on long repetitive inputs; oracle: outcome is a dict / list of dicts or a LarkError with a position inside the text (OSError only with an INCLUDE line).",
+    ("C11", "Generated-input search: Hypothesis-drawn token-level mutations of corpus files and generated documents, token soups over the whole vocabulary, a fixed family of unterminated constructs / every block type at the root / malformed INCLUDE lines / nesting at the stated bounds, a CPU-time growth-exponent measurement on long repetitive inputs, and short unterminated repetitive inputs loaded in a forked child under a kernel CPU limit; include_comments / include_position drawn; oracle: outcome is a dict / list of dicts or a LarkError with a position inside the text (OSError only with an INCLUDE line).",
      "fuzzing / property-based testing: mutation + token-soup generators with an outcome-classification oracle (Hypothesis; atheris in the thorough tier)"),
-    ("C19", "Complete enumeration of the finite vocabulary product (block type x parent context x schema property x position x value alternative x representative value) as minimal document models, plus all parent/child edges, all declared defaults and create(type, version) over all schema files x 7 versions; oracle: reference dictionary, printer log records, round trip, validation messages.",
+    ("C19", "Complete enumeration of the finite vocabulary product (block type x parent context x schema property x position x value alternative x representative value) as minimal document models, plus all parent/child edges, all declared defaults and create(type, version) over all schema files x 26 versions; oracle: reference dictionary, printer log records, round trip, validation messages.",
      "exhaustive enumeration of a finite configuration product with a reference-model oracle"),
     ("C07", "Exhaustive single-fault sweep over every keyword slot x fault kind x context, plus generated-input search: Hypothesis-drawn schema-valid documents of every root type with 0-2 injected faults at drawn depths and list indexes (each fault confirmed invalid by the Draft-4 evaluator), plus arbitrary generated documents; oracles: by-construction expectation of the named messages, differential against jsonschema Draft 4 over the harness's own inlined schema copy, never-raises, metamorphic relations (value case, hidden keys, key case, list of roots, add_comments=True).",
      "property-based testing: fault injection with by-construction and differential (reference evaluator) oracles, metamorphic relations (Hypothesis)"),
@@ -56,7 +56,7 @@ for pid, text, tech in [
      "property-based testing: differential against textual substitution over generated file trees (Hypothesis)"),
     ("C20", "Generated-input search: Unicode documents through open / load / loads / save / dump / dumps on real files and streams, and the mappyfile command run as real subprocesses over drawn file sets and options; oracle: differential between front ends, string survival, in-process API results as the expectation for CLI output bytes, stdout lines and exit status (boundaries 255 / 256 / 257 always exercised).",
      "property-based testing: differential between front ends, subprocess CLI against in-process API (Hypothesis)"),
-    ("C12", "Generated-input search: structural snapshots of every argument before / after each public call (purity), a Hypothesis rule-based state machine reusing one Parser / MapfileToDict / PrettyPrinter / Validator across documents, failing inputs, flags and versions compared with fresh objects (history independence), and 16-thread stress of the module-level API under a 1 microsecond switch interval compared with sequential results.",
+    ("C12", "Generated-input search: structural snapshots of every argument before / after each public call (purity), a Hypothesis rule-based state machine reusing one Parser / MapfileToDict / PrettyPrinter / Validator across documents, failing inputs, flags and versions compared with fresh objects (history independence), 16-thread stress of the module-level API under a 1 microsecond switch interval compared with sequential results, and Hypothesis-drawn histories of module-level calls (loads / dumps / validate / save + open on rewritten paths) compared with history-free worker objects.",
      "property-based testing: snapshot oracle, Hypothesis stateful machine (differential reused vs fresh), thread stress vs sequential"),
     ("C16", DOC + "oracle: an independent reader of the printed text checks the layout contract line by line.",
      "property-based testing: independent reader / validity predicate over documents x option sets (Hypothesis)"),
